@@ -157,5 +157,16 @@ _R1112 = {
  "C19": " now() strictly inside the bracket of virtual clock readings at arbitrary nanoseconds; blanks at the edges of layouts.",
  "C20": " Host-built decimals wider than 34 digits bound to locals.",
 }
+_R13 = {
+ "C03": " Methods of a struct's type read as members are missing fields.",
+ "C06": " Branches that are parenthesised sequences ending in a conditional: traces of exactly the selected path.",
+ "C10": " The full map of every sufficiency pair holds the dollar twins of the names read.",
+ "C11": " Null arguments and null array elements going to Go numbers are rejected (no silent zero).",
+ "C12": " Exponents padded with 1-300 leading zeros.",
+ "C15": " The tree is still what its text parses to after the two field analyses.",
+ "C16": " Byte slices are handed on unchanged; methods are no members.",
+ "C17": " upper/lower of every code point that has a case.",
+ "C20": " opaque-values-stored-unchanged: 15 host values (instants with monotonic readings, slices, maps, structs, pointers, functions) bound through 14 spellings and SetThisValue, compared by Go identity in the map and in six later reads.",
+}
 for _i in CLAIMED:
-    CLAIMED[_i]["text"] += _MORE.get(_i, "") + _R78.get(_i, "") + _R910.get(_i, "") + _R1112.get(_i, "") + _HOST
+    CLAIMED[_i]["text"] += _MORE.get(_i, "") + _R78.get(_i, "") + _R910.get(_i, "") + _R1112.get(_i, "") + _R13.get(_i, "") + _HOST
